@@ -324,7 +324,7 @@ def h_body_is(handler, text):
     return '\n'.join(ast.unparse(s) for s in handler.body if not (isinstance(s, ast.Expr) and isinstance(s.value, ast.Constant))) == text
 
 
-@contract(RL, '<rename-block>', props=['C13', 'C14'])
+@contract(RL, '<rename-block>', props=['C13', 'C14', 'C10'])
 def _(c):
     c.trusted = True
 
@@ -340,7 +340,7 @@ def _(c):
             and any(ast.unparse(n) == 'is_compr = compr is not None' for n in ast.walk(fn) if isinstance(n, ast.Assign)) \
             and any(ast.unparse(n) == 'unc_size = self.save_manifest(mpath, sort=sort)' for n in ast.walk(fn) if isinstance(n, ast.Assign))
         return ok, {'new_mpath': assigns}
-    c.const('renamed-manifest-names-are-derived-from-the-actual-suffix', rename_names)
+    c.const('renamed-manifest-names-are-derived-from-the-actual-suffix', rename_names, props=['C13', 'C10'])
 
     def size_is_uncompressed(repo):
         """save_manifest returns the position of the uncompressed text stream (f.buffer.tell() after flush), not a file size"""
